@@ -825,6 +825,10 @@ func Replay(run *hx.Run, kind string, raw json.RawMessage) bool {
 		}
 	case "gen":
 		return ReplayGen(run, raw)
+	case "keep":
+		return ReplayKeep(run, raw)
+	case "tile":
+		return ReplayTile(run, raw)
 	default:
 		return false
 	}
